@@ -1,5 +1,7 @@
 """C09 — sort emits every record once, unchanged, plus correct bo/sn/iv tags."""
 from . import sortfam as F
+from . import tokfam
+from ..engine import Direct
 
 ID = "C09"
 setup = F.setup
@@ -18,6 +20,7 @@ META = {
     "assumptions": ["model file system cookies (DESIGN 3.2): BGZF reader yields bytes, BGZF writer rejects str with TypeError",
                     "StageTimer/logger no-ops"],
 }
+META["explanation"] += '  sort2-second-graph-in-process: another build of the graph sorted first in the same execution.  tokens/cli/sort.py: the path tokenizer decided as a language by z3.'
 
 
 def harnesses(tier):
@@ -37,6 +40,7 @@ def harnesses(tier):
     for gi in (False, True):
         hs.append({"id": "sort2-nonl/%s/>s1+>x1" % ("bgzf" if gi else "text"), "params": {"kind": "sort", "paths": [">s1", ">x1"], "gz_in": gi,
                                                                                  "no_final_newline": True}, "timeout": 200})
+    hs.append({"id": "sort2-second-graph-in-process/>s1>x1+<s2", "params": {"kind": "sort", "paths": [">s1>x1", "<s2"], "prior": True}, "timeout": 300})
     three = [(">s1", ">x1", "<s1")]
     if tier == "thorough":
         three += [(">s1>x1", "<s2", ">x1"), (">s1", ">s1", ">s1"), (">x1", ">s1<s2", "<s2<x1<s1")]
@@ -45,10 +49,13 @@ def harnesses(tier):
     for c in three:
         hs.append({"id": "sort3/" + "+".join(c), "params": {"kind": "sort", "paths": list(c)},
                    "timeout": 300 if tier == "quick" else 900})
+    hs.append(tokfam.harness("C09", "gaftools/cli/sort.py"))
     return hs
 
 
 def build(params):
+    if params.get("kind") == "tokens":
+        return Direct(lambda: tokfam.run(params))
     return F.build_sort(params, "C09")
 
 
@@ -83,10 +90,12 @@ def lines_by_name(lines):
 
 
 def replay(params, model, wd):
+    if params.get("kind") == "tokens":
+        return tokfam.replay(params, model, wd)
     used, tags, nums = F.decode_sort(params, model)
     paths = params["paths"]
     lines, outl, offs, idx, err = F.real_sort(wd, paths, tags, nums, params.get("gz_in"), params.get("gz_out"),
-                                              no_final_newline=bool(params.get("no_final_newline")))
+                                              no_final_newline=bool(params.get("no_final_newline")), prior=bool(params.get("prior")))
     if err and "KeyError: 'unknown'" not in err:
         return {"reproduced": True, "key": "C09:sort:exception:" + err.split(":")[0], "what": "run_sort raised " + err}
     v = concrete_content_violation(paths, tags, nums, lines, outl)
